@@ -279,6 +279,14 @@ func (w *Writer) Append(entries []types.LogEntry) error {
 		return types.ErrSealed
 	}
 
+	// Refuse entries we would not be able to read back: readers reject frames
+	// larger than MaxEntrySize as corrupt.
+	for _, e := range entries {
+		if len(e.Data) > MaxEntrySize {
+			return ErrTooBig
+		}
+	}
+
 	flushed := false
 
 	// Save any state we may need to rollback.
